@@ -6,6 +6,16 @@ import subprocess
 
 VERIF = os.path.dirname(os.path.dirname(os.path.abspath(__file__)))
 LEVELS = {
+    "C14": ("token-level model of the dump parser; theorems: a face loop broken over any number of continuation lines is read back whole "
+            "(for every list of faces and every wrapping), negative references contribute the edge's second vertex, vertices of no face "
+            "and the edges at them are dropped, density rule; tied to the parser by exact correspondence on dumps written by an "
+            "independent serialiser; numeric fields compared by the oracle", "4/C14",
+            "Coq theorems on a token-level Gallina model + independent serialiser round-trip"),
+    "C19": ("PARTIAL. Proved: vertices are interned by rounded coordinates and ids never change, a ridge walked by the neighbouring region "
+            "gets minus the same edge id, cells are stored under |key|. The lattice-elements model is tied to the code by exact "
+            "correspondence (Qhull output handed to both). One cell per kept region with the region's corners as cycle, uniform "
+            "rotational sense and mesh consistency are evaluated against scipy's diagram by the oracle", "4/C19",
+            "Coq theorems (interning) + exact correspondence + Voronoi oracle (partial)"),
     "C01": ("theorems over R: force balance makes (T/mean T, 0) an exact solution of the augmented system; an injective augmented matrix "
             "has a single non-negative minimiser; together with C02 (rows) and C05 (certified minimiser) this is the property; the "
             "composition is exercised end to end on Voronoi / Moebius tissues (all back-ends, fits, resampling) with D1 attributed", "4/C01",
